@@ -191,7 +191,19 @@ def install_serdes(I):
                 I.eval(node.key, bind(i), path, True)
                 I.eval(node.value, bind(i), path, True)
             return z3.And(keep(i), sc.cond())
-        return CompDict(src.length, key, val, keep, raises)
+        cd = CompDict(src.length, key, val, keep, raises)
+        # membership as functions of the key (both directions quantifier-free via a witness function)
+        uid = next(path.names.n)
+        cd.has_f = z3.Function(f"compdict_has!{uid}", Val, BoolS)
+        cd.wit_f = z3.Function(f"compdict_wit!{uid}", Val, IntS)
+        n = src.length if not isinstance(src.length, int) else z3.IntVal(src.length)
+        path.assume(Q([Val], lambda k_, cd=cd, n=n: z3.Implies(cd.has_f(k_), z3.And(
+            cd.wit_f(k_) >= 0, cd.wit_f(k_) < n, cd.keep(SInt(cd.wit_f(k_))), to_val(cd.key(SInt(cd.wit_f(k_)))) == k_)),
+            trigger=cd.has_f, name="compdict-has-elim"))
+        path.assume(Q([IntS], lambda i, cd=cd, n=n: z3.Implies(z3.And(i >= 0, i < n, cd.keep(SInt(i))),
+                                                               cd.has_f(to_val(cd.key(SInt(i))))),
+                      name="compdict-has-intro"))
+        return cd
     I.hooks["dictcomp_seq"] = dictcomp_seq
 
     def call_opaque(I, path, f, args, kwargs):
@@ -203,7 +215,32 @@ def install_serdes(I):
                 return Built(f, source=args[0])
         return _MISSING
     I.hooks["call_opaque"] = call_opaque
+
+    def len_host(I, path, x):
+        # len(constructor(iterable)) for sequence constructors: the constructor keeps the elements
+        if isinstance(x, Built) and x.source is not None:
+            n = x.source.length
+            return n if isinstance(n, int) else SInt(n)
+        return _MISSING
+    I.hooks["len_host"] = len_host
+
+    def contains(I, path, container, item):
+        if isinstance(container, CompDict):
+            return SBool(container.has_f(to_val(item)))
+        raise Unsupported(f"`in` on {container!r}")
+    I.hooks["contains"] = contains
+
+    def getattr_default(I, path, obj, name, default):
+        if name == "__required_keys__" and isinstance(obj, SV):
+            t = obj.t
+            return SSeq(required_n(t), lambda i, t=t: SV(required_key(t, to_int(i))), "tuple")
+        return _MISSING
+    I.hooks["getattr_default"] = getattr_default
     return I
+
+
+required_n = z3.Function("required_n", Val, IntS)          # len(getattr(t, '__required_keys__', ()))
+required_key = z3.Function("required_key", Val, IntS, Val)
 
 
 def ctor(term):
